@@ -6,6 +6,8 @@ export GOTOOLCHAIN=local GOPROXY=off GOSUMDB=off
 mkdir -p build evidence
 (cd tools/facts && GOFLAGS=-mod=mod go build -o ../../build/facts .)
 ./build/facts /repo lean/Oidc/Generated/Facts.lean build/facts.json build/dict.json
+(cd tools/go2lean && GOFLAGS=-mod=mod go build -o ../../build/go2lean .)
+./build/go2lean /repo lean/Oidc/Generated/Code.lean
 (cd lean && lake build Oidc driver)
 python3 - <<'PY'
 import json, glob, os
